@@ -52,17 +52,33 @@ func init() {
 		Workers:    12,
 		Assumptions: []string{
 			"JSON/YAML parsers and marshmallow are not modelled: the parse of the bytes (encoding/json, else oasdiff/yaml YAMLToJSON) is computed by the harness and handed to the model as the document tree",
-			"every case runs in a child process with a 64 MiB stack limit and a timeout of 20 s; a fatal crash or timeout is an observation",
+			"every case runs in a child process with a 16 MiB stack limit and a timeout of 15 s; a fatal crash or timeout is an observation; after 6000 crashed or 36 hung children the remaining cases of a run are skipped",
 			"external files are served from memory through ReadFromURIFunc (no disk or network access)",
 		},
 	})
 }
 
-const c20TimeoutMs = 20000
+const c20TimeoutMs = 15000
 
 // runC20Isolated evaluates the case in a pooled child process; when the child dies the case is run
 // once more in a fresh child whose stderr is kept, to name the function that overflowed the stack.
+const c20StackMB = 16
+
+// circuit breaker: a change that makes most documents crash or hang would otherwise keep the run busy for
+// hours (every crash costs a process start, every hang the full timeout). After this many crashed /
+// hung children the remaining cases are not executed (observation {"skipped": true}, counted in the
+// evidence under impl_outcome_kinds); the unchanged tree stays far below both limits.
+const (
+	c20MaxCrashes = 6000
+	c20MaxHangs   = 36
+)
+
+var c20Crashes, c20Hangs int64
+
 func runC20Isolated(c hx.Case) any {
+	if atomic.LoadInt64(&c20Crashes) > c20MaxCrashes || atomic.LoadInt64(&c20Hangs) > c20MaxHangs {
+		return map[string]any{"skipped": true, "kind": "skipped"}
+	}
 	if f := os.Getenv("C20_TRACE"); f != "" {
 		b, _ := json.Marshal(c)
 		if len(b) > 300 {
@@ -75,7 +91,11 @@ func runC20Isolated(c hx.Case) any {
 	obs := hx.RunIsolated("C20", c, c20TimeoutMs)
 	if m, ok := obs.(map[string]any); ok {
 		if _, crashed := m["crash"]; crashed {
+			atomic.AddInt64(&c20Crashes, 1)
 			m["site"] = c20CrashSite(c)
+		}
+		if _, hung := m["hang"]; hung {
+			atomic.AddInt64(&c20Hangs, 1)
 		}
 	}
 	return obs
@@ -226,7 +246,7 @@ func (o *c20Obs) stage(name string, f func() error) (ok bool) {
 }
 
 func runC20(c hx.Case) any {
-	debug.SetMaxStack(64 << 20)
+	debug.SetMaxStack(c20StackMB << 20)
 	data := c20Bytes(c)
 	files := map[string][]byte{}
 	if fm, ok := c["files"].(map[string]any); ok {
@@ -303,6 +323,9 @@ func cmpC20(c hx.Case, impl any, reply map[string]any) hx.Verdict {
 	im, _ := impl.(map[string]any)
 	if im == nil {
 		return hx.Verdict{IM: false, IS: false, Detail: "no observation"}
+	}
+	if jbool(im, "skipped") {
+		return hx.Verdict{IM: true, IS: true, Detail: "not executed: crash/hang limit of the run reached"}
 	}
 	model, _ := reply["model"].(map[string]any)
 	mAb := toStrs(model["abnormal"])
